@@ -272,7 +272,12 @@ type c14Verdict struct {
 	Ref        *c14RefRes // the matched reference alternative
 }
 
-func c14UsesRef(q c14Query) bool { return q.Entry != c14EntrySelect || q.LibVer >= 2 }
+// c14UsesRef: the published HKDF selection is what library versions 2-4 (the versions the property
+// quantifies over) and the client entry points run; for higher version numbers only the generic
+// oracle applies, so that a future version with its own algorithm is not held to this one.
+func c14UsesRef(q c14Query) bool {
+	return q.Entry != c14EntrySelect || (q.LibVer >= 2 && q.LibVer <= 4)
+}
 
 // c14Judge applies the property to one observed outcome.
 func c14Judge(b *c14Built, q c14Query, o c14Out) c14Verdict {
@@ -367,6 +372,15 @@ func c14Judge(b *c14Built, q c14Query, o c14Out) c14Verdict {
 			want = 4
 		case c14FamV6:
 			want = 16
+		}
+		// Go's other well-formed representation of an IPv4 address is the 16-byte IPv4-mapped form;
+		// where IPv4 is acceptable it is read as the 4-byte address it denotes.
+		if len(o.IP) == 16 && want != 16 {
+			if a, ok := netip.AddrFromSlice(o.IP); ok && a.Is4In6() {
+				u := a.Unmap().As4()
+				o.IP = u[:]
+				add("v4-mapped-result")
+			}
 		}
 		n := len(o.IP)
 		lenOK := (want != 0 && n == want) || (want == 0 && (n == 4 || n == 16))
